@@ -1,3 +1,219 @@
 package main
 
-func runC17Decode(o *Out) {}
+import (
+	"bytes"
+	stdjson "encoding/json"
+	"encoding/hex"
+	"fmt"
+	"io"
+	"testing/iotest"
+
+	gojson "github.com/goccy/go-json"
+)
+
+type textCap struct{ B []byte }
+
+func (t *textCap) UnmarshalText(b []byte) error { t.B = append([]byte{}, b...); return nil }
+
+var c17Items = []string{
+	"a",
+	"Z",
+	" ",
+	"/",
+	"\u00e9",
+	"\u20ac",
+	"\U0001F600",
+	"\u2028",
+	"\ufffd",
+	"\\\"",
+	"\\\\",
+	"\\/",
+	"\\b",
+	"\\f",
+	"\\n",
+	"\\r",
+	"\\t",
+	"\\u0041",
+	"\\u00e9",
+	"\\u00E9",
+	"\\u20ac",
+	"\\u0000",
+	"\\u001f",
+	"\\u2028",
+	"\\ufffd",
+	"\\ufffe",
+	"\\ud83d",
+	"\\ude00",
+	"\\ud83d\\ude00",
+	"\\udbff",
+	"\\udc00",
+	"\\ud800",
+	"\\udfff",
+	"\\x",
+	"\\u12",
+	"\\u12g4",
+	"\\U0041",
+	"\n",
+	"\x01",
+	"\x7f",
+	"\\",
+	"\\u",
+	"\x00",
+}
+
+func strObs(err error, v *string) string {
+	e := "0"
+	if err != nil {
+		e = "1"
+	}
+	val := "-"
+	if v != nil {
+		val = hex.EncodeToString([]byte(*v))
+	}
+	return "err=" + e + " value=" + val
+}
+
+// decode doc into a string destination with two sentinels to detect a store
+func strDecode(unmarshal func([]byte, interface{}) error, doc []byte) string {
+	var res [2]string
+	var errs [2]error
+	for i, sent := range []string{"\x01S1", "\x02S2"} {
+		x := sent
+		errs[i] = safeUnmarshal(unmarshal, doc, &x)
+		res[i] = x
+	}
+	if errs[0] != nil && len(errs[0].Error()) > 5 && errs[0].Error()[:5] == "PANIC" {
+		return "panic"
+	}
+	if res[0] == res[1] {
+		return strObs(errs[0], &res[0])
+	}
+	return strObs(errs[0], nil)
+}
+
+func streamUnmarshal(one bool) func([]byte, interface{}) error {
+	return func(b []byte, v interface{}) error {
+		var r io.Reader = bytes.NewReader(b)
+		if one {
+			r = iotest.OneByteReader(r)
+		}
+		d := gojson.NewDecoder(r)
+		if err := d.Decode(v); err != nil {
+			return err
+		}
+		var rest interface{}
+		if err := d.Decode(&rest); err != io.EOF {
+			return fmt.Errorf("trailing data")
+		}
+		return nil
+	}
+}
+
+func c17Dec(o *Out, lit string, toModel bool) {
+	doc := []byte(`"` + lit + `"`)
+	impl := strDecode(gojson.Unmarshal, doc)
+	want := strDecode(stdjson.Unmarshal, doc)
+	valid := stdjson.Valid(doc)
+	o.count("decode_cases", 1)
+	if toModel {
+		// the oracle is only binding for valid literals (acceptance is C05's matter)
+		o.emit("A", "c17.dec_buf", [][]byte{doc}, []byte(impl), []byte(want), valid)
+	} else if valid && impl != want {
+		o.emit("C", "c17.dec_buf", [][]byte{doc}, []byte(impl), []byte(want), true)
+	}
+	if !valid {
+		if impl[:5] == "err=0" {
+			o.hist("invalid_literal_accepted", "buffer")
+		}
+		return
+	}
+	// other positions and modes, valid literals only, against encoding/json
+	type S struct {
+		A string   `json:"a"`
+		Q string   `json:"q,string"`
+		T textCap  `json:"t"`
+		I interface{} `json:"i"`
+		M map[string]int `json:"m"`
+	}
+	docs := []struct{ pos, doc string }{
+		{"field", `{"a":"` + lit + `"}`},
+		{"iface", `{"i":"` + lit + `"}`},
+		{"mapkey", `{"m":{"` + lit + `":1}}`},
+		{"text", `{"t":"` + lit + `"}`},
+	}
+	for _, d := range docs {
+		var g, w S
+		gerr := safeUnmarshal(gojson.Unmarshal, []byte(d.doc), &g)
+		werr := stdjson.Unmarshal([]byte(d.doc), &w)
+		gs, _ := stdjson.Marshal(g)
+		ws, _ := stdjson.Marshal(w)
+		o.count("decode_position_cases", 1)
+		if (gerr != nil) != (werr != nil) || !bytes.Equal(gs, ws) {
+			o.violation("C17", "string literal decoded differently from encoding/json", map[string]string{
+				"position": d.pos, "doc": fmt.Sprintf("%q", d.doc), "impl": fmt.Sprintf("err=%v %s", gerr, gs), "oracle": fmt.Sprintf("err=%v %s", werr, ws)})
+		}
+		for _, one := range []bool{false, true} {
+			var g2 S
+			serr := safeUnmarshal(streamUnmarshal(one), []byte(d.doc), &g2)
+			gs2, _ := stdjson.Marshal(g2)
+			o.count("stream_position_cases", 1)
+			if (serr != nil) != (werr != nil) || !bytes.Equal(gs2, ws) {
+				o.violation("C17", "string literal decoded differently in stream mode", map[string]string{
+					"position": d.pos, "onebyte": fmt.Sprint(one), "doc": fmt.Sprintf("%q", d.doc),
+					"impl": fmt.Sprintf("err=%v %s", serr, gs2), "oracle": fmt.Sprintf("err=%v %s", werr, ws)})
+			}
+		}
+	}
+	// Token
+	{
+		gd := gojson.NewDecoder(bytes.NewReader(doc))
+		gt, gerr := gd.Token()
+		wd := stdjson.NewDecoder(bytes.NewReader(doc))
+		wt, werr := wd.Token()
+		o.count("token_cases", 1)
+		if (gerr != nil) != (werr != nil) || fmt.Sprint(gt) != fmt.Sprint(wt) {
+			o.violation("C17", "Token() string differs from encoding/json", map[string]string{"doc": fmt.Sprintf("%q", doc), "impl": fmt.Sprintf("%q %v", gt, gerr), "oracle": fmt.Sprintf("%q %v", wt, werr)})
+		}
+	}
+}
+
+func hasMultiByte(s string) bool {
+	for i := 0; i < len(s); i++ {
+		if s[i] >= 0x80 {
+			return true
+		}
+	}
+	return false
+}
+
+func runC17Decode(o *Out) {
+	n := len(c17Items)
+	depth := 3
+	if o.tier == "thorough" {
+		depth = 4
+	}
+	var rec func(prefix string, d int)
+	cnt := 0
+	rec = func(prefix string, d int) {
+		cnt++
+		c17Dec(o, prefix, cnt%3 == 0 || d >= depth-1)
+		if d == 0 {
+			return
+		}
+		for i := 0; i < n; i++ {
+			if d < depth && depth == 4 && i%2 == 1 && d == 1 {
+				continue
+			}
+			rec(prefix+c17Items[i], d-1)
+		}
+	}
+	rec("", depth)
+	// long literals: an escape at every offset around the 8/16 byte marks
+	for off := 0; off < 20; off++ {
+		for _, it := range []string{"\\n", "\\u00e9", "\\ud83d\\ude00", "\\ud83d", "\u00e9", "\U0001F600"} {
+			s := string(bytes.Repeat([]byte("x"), off)) + it + "yy"
+			c17Dec(o, s, true)
+			c17Dec(o, s+it, true)
+		}
+	}
+}
